@@ -162,6 +162,62 @@ class Run:
                     return False
         return True
 
+    # -- PyLite: the interpreter of the regenerated source ASTs ------------
+    def build_pymodel(self):
+        ok = self.build(["py/PyLite.vo", "gen/Src_all.vo"])
+        if not ok:
+            return False
+        with CoqLock():
+            drv = os.path.join(COQ, "extract", "pydriver")
+            newest = max(os.path.getmtime(p) for p in
+                         glob.glob(os.path.join(COQ, "gen", "Src_*.vo")) +
+                         [os.path.join(COQ, "py", "PyLite.vo"),
+                          os.path.join(COQ, "extract", "Extract_py.v"),
+                          os.path.join(COQ, "extract", "pydriver.ml")])
+            if (not os.path.exists(drv)) or os.path.getmtime(drv) < newest:
+                p = subprocess.run(["bash", os.path.join(COQ, "extract", "build_py.sh")],
+                                   capture_output=True, text=True)
+                if p.returncode != 0:
+                    self.proof_log += "\n[pydriver build]\n" + (p.stdout + p.stderr)[-3000:]
+                    return False
+        return True
+
+    def pylite(self, groups, n=None):
+        """Correspondence of PyLite's semantics with CPython on the regenerated source:
+        the extracted interpreter runs the ASTs, CPython runs the functions, same arguments."""
+        import logging
+        from harness import pyl
+        from checks import pyl_cases
+        if not self.build_pymodel():
+            self.violation("the PyLite interpreter / regenerated source ASTs do not build",
+                           {"log": self.proof_log[-2000:]}, nofail=True)
+            return
+        logging.disable(logging.CRITICAL)
+        try:
+            drv = pyl.PyDriver()
+            ctx = pyl_cases.Ctx(drv)
+            rng = Rng(self.seed ^ 0x5EED)
+            n = n or (400 if self.thorough else 60)
+            for g in groups:
+                cs = pyl_cases.GROUPS[g](rng.r, n, ctx)
+                outs = drv.ask([c[0] for c in cs])
+                for (cmd, impl, lab), o in zip(cs, outs):
+                    o2 = o
+                    if cmd.startswith("call") and impl.startswith("ok ") and not lab.endswith(("+state", "+callbacks")):
+                        o2 = pyl.split_call_result(o)
+                    kind = "pylite:%s:%s" % (lab, o2.split(" ")[0])
+                    if o2.startswith("unsupported") or o2 == "fuel":
+                        self.dist[kind] = self.dist.get(kind, 0) + 1     # outside the subset: not compared
+                        continue
+                    self.count(kind, ("pylite", cmd))
+                    if o2 != impl:
+                        self.violation("CPython and the PyLite interpretation of the same source differ (%s)" % lab,
+                                       {"call": cmd[:4000], "implementation": impl[:4000], "interpreter": o2[:4000],
+                                        "kind": "pylite"}, nofail=True)
+                        return
+        finally:
+            logging.disable(logging.NOTSET)
+
     def _model_targets(self):
         out = []
         with open(os.path.join(COQ, "_CoqProject")) as f:
